@@ -114,3 +114,66 @@ def run(sink, prop, rng, n, codecs=CODECS):
                                     sink.violation('%s: decoding differs between the imported and the inline spelling of one type' % codec,
                                                    {'codec': codec, 'modules': text, 'inline': inline[i], 'type': name, 'data': repr(b[1])[:200], 'check_constraints': cc,
                                                     'imported': repr(da)[:300], 'inline_result': repr(db)[:300]})
+
+
+# ---------------------------------------------------------------------------------------------------------------------
+# the same identifier as a NAMED NUMBER of several INTEGER types of one module, used as a bound of each type's own constraint
+
+def build_named(rng):
+    ids = rng.choice([('min', 'max'), ('lo', 'hi'), ('first', 'last')])
+    types, lits = [], []
+    bounds = []
+    names = rng.sample(['Volume', 'Level', 'Gain', 'Alpha', 'Zed'], rng.choice([2, 3]))
+    for nm in names:
+        lo = rng.choice([0, 0, 1, -5, -128])
+        hi = lo + rng.choice([1, 7, 100, 255, 256, 70000])
+        bounds.append((lo, hi))
+        types.append('%s ::= INTEGER { %s(%d), %s(%d) } (%s..%s)' % (nm, ids[0], lo, ids[1], hi, ids[0], ids[1]))
+        lits.append('%s ::= INTEGER { %s(%d), %s(%d) } (%d..%d)' % (nm, ids[0], lo, ids[1], hi, lo, hi))
+    uses = ['Box ::= SEQUENCE { %s }' % ', '.join('m%d %s' % (i, nm) for i, nm in enumerate(names)),
+            'List ::= SEQUENCE OF %s' % names[-1]]
+    head = 'M DEFINITIONS AUTOMATIC TAGS ::= BEGIN\n'
+    order = list(range(len(names)))
+    rng.shuffle(order)
+    named = head + '\n'.join([types[i] for i in order] + uses) + '\nEND\n'
+    literal = head + '\n'.join([lits[i] for i in order] + uses) + '\nEND\n'
+    cases = []
+    every = sorted({b for lo, hi in bounds for b in (lo - 1, lo, hi, hi + 1)})
+    for i, nm in enumerate(names):
+        for x in every:
+            cases.append((nm, x))
+    for x in every:
+        for i, nm in enumerate(names):
+            v = {'m%d' % j: bounds[j][0] for j in range(len(names))}
+            v['m%d' % i] = x
+            cases.append(('Box', v))
+        cases.append(('List', [bounds[-1][0], x]))
+    return named, literal, cases
+
+
+def run_named(sink, prop, rng, n, codecs=CODECS):
+    for _ in range(n):
+        named, literal, cases = build_named(rng)
+        for codec in codecs:
+            sa, a = impl.compile_text(named, codec)
+            sb, b = impl.compile_text(literal, codec)
+            if sa != 'ok' or sb != 'ok':
+                if sa != sb:
+                    sink.violation('%s: named numbers as constraint bounds compile differently from the same bounds written as numbers' % codec,
+                                   {'codec': codec, 'named': named, 'literal': literal, 'a': sa, 'b': sb})
+                continue
+            for name, v in cases:
+                ra, rb = impl.encode(a, name, v, check_constraints=True), impl.encode(b, name, v, check_constraints=True)
+                sink.case((named, name, repr(v), codec))
+                sink.count('named-numbers.%s.%s' % (codec, rb[0] if rb[0] == 'ok' else rb[1].split(':')[0]))
+                oa = outcome(ra) + ((ra[2].split(': ')[0],) if ra[0] != 'ok' else ())
+                ob = outcome(rb) + ((rb[2].split(': ')[0],) if rb[0] != 'ok' else ())
+                if oa != ob:
+                    sink.violation('%s: a constraint whose bounds are named numbers of the type behaves differently from the same constraint written with numbers '
+                                   '(the same identifiers name other numbers in another type of the module)' % codec,
+                                   {'codec': codec, 'module': named, 'literal_module': literal, 'type': name, 'value': repr(v), 'named': repr(oa)[:300], 'literal': repr(ob)[:300]})
+                elif ra[0] == 'ok' and codec != 'gser':
+                    da, db = impl.decode(a, name, ra[1], check_constraints=True), impl.decode(b, name, ra[1], check_constraints=True)
+                    if outcome(da) != outcome(db):
+                        sink.violation('%s: decoding differs between named-number bounds and the same bounds written as numbers' % codec,
+                                       {'codec': codec, 'module': named, 'type': name, 'data': repr(ra[1])[:100], 'named': repr(da)[:300], 'literal': repr(db)[:300]})
